@@ -540,52 +540,97 @@ func (e *Engine) zeroLike(v Value) Value {
 func (th *Thread) doCopy(dst Slice, src Value) Value {
 	e := th.eng
 	p := e.pool
-	// source bytes/cells
-	var get func(i uint64) Value
-	var sn uint64
+	// Source and destination as (length term, element reader/writer). Cell-backed
+	// operands have offset and length concretised (bounded by the object size);
+	// solver-array operands keep symbolic offset and length.
+	var sget func(i uint64) Value
+	var sn *Term
 	switch s := src.(type) {
 	case Str:
-		sn = uint64(s.Len())
-		get = func(i uint64) Value { return s.At(p, int(i)) }
+		sn = p.BV(uint64(s.Len()), 64)
+		sget = func(i uint64) Value { return s.At(p, int(i)) }
 	case Slice:
-		sn = e.path.Concretize(s.ln, "copy source len")
 		if s.arr != nil {
-			get = func(i uint64) Value { return th.byteAt(s, i) }
-		} else if sn > 0 {
-			off := e.path.Concretize(s.off, "copy source offset")
-			get = func(i uint64) Value {
-				e.access(th, &s.data[off+i], false)
-				return copyVal(s.data[off+i])
+			sn = s.ln
+			sget = func(i uint64) Value { return p.Select(s.arr.arr, p.Bin(OpAdd, s.off, p.BV(i, 64))) }
+		} else {
+			n := e.path.Concretize(s.ln, "copy source len")
+			sn = p.BV(n, 64)
+			if n > 0 {
+				off := e.path.Concretize(s.off, "copy source offset")
+				sget = func(i uint64) Value {
+					e.access(th, &s.data[off+i], false)
+					return copyVal(s.data[off+i])
+				}
 			}
 		}
 	}
-	dn := e.path.Concretize(dst.ln, "copy dest len")
-	n := sn
-	if dn < n {
-		n = dn
-	}
-	if n == 0 {
-		return p.BV(0, 64)
-	}
+	var dn *Term
+	var dget func(i uint64) Value
+	var dput func(i uint64, v Value)
 	if dst.arr != nil {
-		vals := make([]Value, n)
+		dn = dst.ln
+		dget = func(i uint64) Value { return p.Select(dst.arr.arr, p.Bin(OpAdd, dst.off, p.BV(i, 64))) }
+		dput = func(i uint64, v Value) {
+			dst.arr.arr = p.Store(dst.arr.arr, p.Bin(OpAdd, dst.off, p.BV(i, 64)), v.(*Term))
+		}
+	} else {
+		n := e.path.Concretize(dst.ln, "copy dest len")
+		dn = p.BV(n, 64)
+		if n > 0 {
+			doff := e.path.Concretize(dst.off, "copy dest offset")
+			dget = func(i uint64) Value { return dst.data[doff+i] }
+			dput = func(i uint64, v Value) {
+				e.access(th, &dst.data[doff+i], true)
+				dst.data[doff+i] = v
+			}
+		}
+	}
+	if sn.IsConst() && dn.IsConst() {
+		n := sn.Val
+		if dn.Val < n {
+			n = dn.Val
+		}
+		vals := make([]Value, n) // memmove semantics: read all, then write
 		for i := uint64(0); i < n; i++ {
-			vals[i] = get(i)
+			vals[i] = sget(i)
 		}
 		for i := uint64(0); i < n; i++ {
-			dst.arr.arr = p.Store(dst.arr.arr, p.Bin(OpAdd, dst.off, p.BV(i, 64)), vals[i].(*Term))
+			dput(i, vals[i])
 		}
 		return p.BV(n, 64)
 	}
-	doff := e.path.Concretize(dst.off, "copy dest offset")
-	// memmove semantics: read all, then write
-	vals := make([]Value, n)
-	for i := uint64(0); i < n; i++ {
-		vals[i] = get(i)
+	// one length symbolic: copy under guards, bounded by the concrete length
+	var bound uint64
+	switch {
+	case sn.IsConst():
+		bound = sn.Val
+	case dn.IsConst():
+		bound = dn.Val
+	default:
+		// both symbolic (two solver-array operands): bound by the smaller provable maximum
+		bound = sn.umax()
+		if d := dn.umax(); d < bound {
+			bound = d
+		}
+		if bound > 64 {
+			panic(inconclusive{"copy between two solver-array slices of unbounded symbolic length"})
+		}
 	}
-	for i := uint64(0); i < n; i++ {
-		e.access(th, &dst.data[doff+i], true)
-		dst.data[doff+i] = vals[i]
+	n := p.Ite(p.Cmp(OpUlt, sn, dn), sn, dn)
+	if bound == 0 {
+		return p.BV(0, 64)
 	}
-	return p.BV(n, 64)
+	vals := make([]Value, bound)
+	for i := uint64(0); i < bound; i++ {
+		vals[i] = sget(i)
+	}
+	for i := uint64(0); i < bound; i++ {
+		g := p.Cmp(OpUlt, p.BV(i, 64), n)
+		if g.IsFalse() {
+			break
+		}
+		dput(i, p.Ite(g, vals[i].(*Term), dget(i).(*Term)))
+	}
+	return n
 }
